@@ -59,7 +59,8 @@ class time_guard(object):
         self.on = self.seconds and threading.current_thread() is threading.main_thread()
         if self.on:
             self.old = signal.signal(signal.SIGALRM, self._raise)
-            signal.setitimer(signal.ITIMER_REAL, self.seconds)
+            # re-fires: the first HarnessTimeout may be swallowed where Python ignores exceptions (gc callbacks, __del__)
+            signal.setitimer(signal.ITIMER_REAL, self.seconds, 0.5)
 
     def __exit__(self, *a):
         import signal
